@@ -262,6 +262,7 @@ type Exec struct {
 	exitPCs  []Term
 	arrSorts map[string]Sort
 	ifaceParams []string
+	spawned  []string
 }
 
 func NewExec(P *Program, fn *ssa.Function, c *FuncContract) *Exec {
